@@ -19,40 +19,11 @@ func init() {
 // registered resolves the function value registered under an SQL function name by the module's
 // init functions (RegisterFunction / RegisterImmediateFunction / RegisterTopLevelFunction …).
 func (c *Ctx) registered(name string) (*ssa.Function, bool) {
-	var fn *ssa.Function
-	immediate := false
-	for _, f := range c.P.ModFuncs {
-		if !strings.HasPrefix(f.Name(), "init") {
-			continue
-		}
-		allInstrs(f, func(_ *ssa.BasicBlock, in ssa.Instruction) {
-			call, ok := in.(*ssa.Call)
-			if !ok || call.Common().StaticCallee() == nil || len(call.Common().Args) != 2 {
-				return
-			}
-			if s, isC := constString(call.Common().Args[0]); !isC || s != name {
-				return
-			}
-			v := call.Common().Args[1]
-			for {
-				if ct, ok := v.(*ssa.ChangeType); ok {
-					v = ct.X
-					continue
-				}
-				break
-			}
-			switch x := v.(type) {
-			case *ssa.Function:
-				fn = x
-			case *ssa.MakeClosure:
-				fn = x.Fn.(*ssa.Function)
-			}
-			if strings.Contains(call.Common().StaticCallee().Name(), "Immediate") {
-				immediate = true
-			}
-		})
+	r, ok := c.registrations()[name]
+	if !ok {
+		return nil, false
 	}
-	return fn, immediate
+	return r.fn, r.immediate
 }
 
 func (c *Ctx) groupByFunc() *ssa.Function {
